@@ -327,6 +327,7 @@ declspecs(struct scope *s, enum storageclass *sc, enum funcspec *fs, int *align)
 	int ntypes = 0;
 	unsigned long long i;
 	struct expr *typeofexpr = NULL;
+	bool hasalign = false;
 
 	t = NULL;
 	if (sc)
@@ -454,6 +455,7 @@ declspecs(struct scope *s, enum storageclass *sc, enum funcspec *fs, int *align)
 			if (i > *align)
 				*align = i;
 			expect(TRPAREN, "to close 'alignas' specifier");
+			hasalign = true;
 			break;
 
 		case T__ATTRIBUTE__:
@@ -501,7 +503,7 @@ done:
 	default:
 		error(&tok.loc, "invalid combination of type specifiers");
 	}
-	if (!t && (tq || sc && *sc || fs && *fs))
+	if (!t && (tq || sc && *sc || fs && *fs || hasalign))
 		error(&tok.loc, "declaration has no type specifier");
 	/*
 	TODO: consider delaying attribute parsing to declarator(),
